@@ -1,6 +1,7 @@
 /- JSON ops for the Widrow–Hoff models (C08, C14, C03, C06) -/
 import PyndlDriver.Json
 import PyndlModel.WHModel
+import PyndlModel.WHPy
 import PyndlModel.Generated
 
 open Lean
@@ -94,9 +95,72 @@ def opKernelWh (j : Json) : M Json := do
   pure (Json.mkObj [("cells", Json.arr cells.toArray), ("bits", jNat (maxBitsL w.toList)),
     ("err", match e with | some _ => Json.str "Raised:IO" | none => Json.null)])
 
+def pyErrName : PyErr → String
+  | .std e => errName e
+  | .assertion => "Raised:Assertion"
+
+def jPyErr (e : PyErr) (piece : Nat) : Json :=
+  Json.mkObj [("err", Json.str (pyErrName e)), ("failed_piece", jNat piece)]
+
+/-- the event lists of the successive calls: `pieces` (each call continues from
+    the previous result), or the single list `events` -/
+def getPieces (j : Json) : M (List (List (Event String String))) :=
+  match getOpt j "pieces" with
+  | some (.arr a) => a.toList.mapM (fun p => do (← asArr p).toList.mapM asEvent)
+  | _ => do pure [← getEvents j "events"]
+
+/-- op wh_numpy: the model of `wh.wh(method='numpy')` (`whNumpyModel`): request of
+    op `wh` (flavour r2r: cue_vectors, outcome_vectors, eta, policy, optional init)
+    plus optional `pieces` — a chain of calls, each continuing from the previous
+    DataArray.  Errors: `Raised:Value|Key|Other|Assertion` with `failed_piece`. -/
+def opWhNumpy (j : Json) : M Json := do
+  let pieces ← getPieces j
+  let p ← getPolicy j "policy"
+  let ct ← asTable (← j.getObjVal? "cue_vectors")
+  let ot ← asTable (← j.getObjVal? "outcome_vectors")
+  let W0 ← getLWOpt j "init"
+  let eta := trD j "eta" 0
+  let rec go (k : Nat) (w : Option (LW TR)) : List (List (Event String String)) → Except (PyErr × Nat) (Option (LW TR))
+    | [] => .ok w
+    | es :: rest =>
+      match whNumpyModel p eta ct ot w es with
+      | .error e => .error (e, k)
+      | .ok r => go (k + 1) (some r) rest
+  match go 0 W0 pieces with
+  | .error (e, k) => pure (jPyErr e k)
+  | .ok none => .error "wh_numpy: no call"
+  | .ok (some w) => pure (lwJsonRC w)
+
+/-- op dict_wh: the model of `dict_wh` (`dictWhModel`; `make_data_array` on the
+    LAST call: `dictWhModelArray`): request as `wh_numpy` (no `init`); every call
+    of `pieces` continues from the previous `WeightDict`.  The reply lists the
+    dict through `lwFromDict` (rows = keys, cols = union of the row keys) and says
+    which type the real call returns. -/
+def opDictWh (j : Json) : M Json := do
+  let pieces ← getPieces j
+  let p ← getPolicy j "policy"
+  let ct ← asTable (← j.getObjVal? "cue_vectors")
+  let ot ← asTable (← j.getObjVal? "outcome_vectors")
+  let eta := trD j "eta" 0
+  let rec go (k : Nat) (W : WDict String String TR) :
+      List (List (Event String String)) → Except (PyErr × Nat) (WDict String String TR)
+    | [] => .ok W
+    | es :: rest =>
+      match dictWhModel p eta ct ot W es with
+      | .error e => .error (e, k)
+      | .ok D => go (k + 1) D rest
+  match go 0 [] pieces with
+  | .error (e, k) => pure (jPyErr e k)
+  | .ok D =>
+    let r := lwJsonRC (lwFromDict D)
+    pure (r.setObjVal! "result_type"
+      (Json.str (if getBoolD j "make_data_array" false then "DataArray" else "WeightDict")))
+
 def handleWH? (op : String) (j : Json) : Option (M Json) :=
   if op == "wh" then some (opWh j)
   else if op == "kernel_wh" then some (opKernelWh j)
+  else if op == "wh_numpy" then some (opWhNumpy j)
+  else if op == "dict_wh" then some (opDictWh j)
   else none
 
 end PyndlDriver
